@@ -53,7 +53,7 @@ func mayPanicErrNaN(m *model.Model) map[*ssa.Function]bool {
 						if _, isDefer := in.(*ssa.Defer); isDefer {
 							continue
 						}
-						if cal := in.Common().StaticCallee(); cal != nil && res[cal] {
+						if cal := model.Unthunk(in.Common().StaticCallee()); cal != nil && res[cal] {
 							res[fn] = true
 						}
 					}
@@ -210,7 +210,7 @@ func runCtx(m *model.Model, s *ob.Set) {
 						cal, c := model.Callee(in)
 						if cal != nil && m.IsDecMethod(cal) && len(c.Args) > 0 {
 							if call, isc := c.Args[0].(*ssa.Call); isc {
-								if c2 := call.Call.StaticCallee(); c2 != nil && m.FuncName(c2) == "context.(*Context).New" {
+								if c2 := model.Unthunk(call.Call.StaticCallee()); c2 != nil && m.FuncName(c2) == "context.(*Context).New" {
 									ok = true
 								}
 							}
@@ -218,6 +218,51 @@ func runCtx(m *model.Model, s *ob.Set) {
 					}
 				}
 				s.Check(ok, R+"(T6)", name, pos, "the setter's receiver is c.New()", "factory does not build its result from c.New(): the context's precision/mode would not apply")
+				// … and on every way out: NewX(x) is c.New().SetX(x) with the very x it was given. A
+				// shortcut through another setter (an integral float64 through int64, say) converts
+				// the argument first, and the conversion has its own range
+				if ok && len(fn.Params) == 2 {
+					want := "Set" + strings.TrimPrefix(fn.Name(), "New")
+					var setters []*ssa.Call
+					for _, b := range fn.Blocks {
+						for _, in := range b.Instrs {
+							call, isc := in.(*ssa.Call)
+							if !isc {
+								continue
+							}
+							cal := model.Unthunk(call.Call.StaticCallee())
+							if cal == nil || !m.IsDecMethod(cal) || cal.Name() != want || len(call.Call.Args) != 2 {
+								continue
+							}
+							if call.Call.Args[1] == ssa.Value(fn.Params[1]) {
+								setters = append(setters, call)
+							}
+						}
+					}
+					bad := ""
+					live := m.Live(fn)
+					for _, b := range fn.Blocks {
+						if !live[b.Index] || len(b.Instrs) == 0 {
+							continue
+						}
+						r, isr := b.Instrs[len(b.Instrs)-1].(*ssa.Return)
+						if !isr {
+							continue
+						}
+						behind := false
+						for _, sc := range setters {
+							if m.InstrDominates(sc, r) {
+								behind = true
+							}
+						}
+						if !behind {
+							bad = m.InstrPos(r) + ": a result is returned on a path that does not go through " + want + " of the argument itself"
+						}
+					}
+					if len(setters) > 0 || bad != "" {
+						s.Check(bad == "", R+"(T6)", name+"/argument", pos, "every result is "+want+"(x) of the argument as given", bad)
+					}
+				}
 			} else if fn.Name() == "ParseDecimal" {
 				ok := false
 				for _, b := range fn.Blocks {
@@ -263,7 +308,7 @@ func runCtx(m *model.Model, s *ob.Set) {
 		for _, b := range fn.Blocks {
 			for _, in := range b.Instrs {
 				if d, ok := in.(*ssa.Defer); ok {
-					if cal := d.Call.StaticCallee(); cal != nil && m.InContextPkg(cal) {
+					if cal := model.Unthunk(d.Call.StaticCallee()); cal != nil && m.InContextPkg(cal) {
 						deferredHandlers[cal] = true
 					}
 				}
@@ -275,7 +320,7 @@ func runCtx(m *model.Model, s *ob.Set) {
 		for _, fn := range ctxFns {
 			for _, b := range fn.Blocks {
 				for _, in := range b.Instrs {
-					if c, ok := in.(*ssa.Call); ok && c.Call.StaticCallee() == h {
+					if c, ok := in.(*ssa.Call); ok && model.Unthunk(c.Call.StaticCallee()) == h {
 						delete(deferredHandlers, h)
 					}
 				}
@@ -442,7 +487,7 @@ func ctxApply(m *model.Model, s *ob.Set, fn *ssa.Function) {
 			if !ok {
 				return false
 			}
-			cal := call.Call.StaticCallee()
+			cal := model.Unthunk(call.Call.StaticCallee())
 			return cal != nil && m.FuncName(cal) == "(*Decimal).Prec" && isZ(call.Call.Args[0])
 		}
 		if (isPrecOfZ(bo.X) && derivesFromCtxField(m, bo.Y, "prec")) || (isPrecOfZ(bo.Y) && derivesFromCtxField(m, bo.X, "prec")) {
@@ -600,12 +645,12 @@ func ctxOperator(m *model.Model, s *ob.Set, fn *ssa.Function, nan map[*ssa.Funct
 			if !ok {
 				continue
 			}
-			cal := call.Call.StaticCallee()
+			cal := model.Unthunk(call.Call.StaticCallee())
 			if cal == nil || !m.IsDecMethod(cal) || !m.InDecimalPkg(cal) {
 				continue
 			}
 			if ac, ok := call.Call.Args[0].(*ssa.Call); ok {
-				if c2 := ac.Call.StaticCallee(); c2 != nil && c2 == ctxApplyFn(m) {
+				if c2 := model.Unthunk(ac.Call.StaticCallee()); c2 != nil && c2 == ctxApplyFn(m) {
 					// argument of apply: z, or z.Copy(x) for Set
 					a := ac.Call.Args[1]
 					if m.RefOf(a).OnlyParam(1) {
@@ -620,9 +665,200 @@ func ctxOperator(m *model.Model, s *ob.Set, fn *ssa.Function, nan map[*ssa.Funct
 				if call.Referrers() != nil {
 					for _, u := range *call.Referrers() {
 						if oc, ok := u.(*ssa.Call); ok {
-							if c2 := oc.Call.StaticCallee(); c2 != nil && c2 == ctxApplyFn(m) {
+							if c2 := model.Unthunk(oc.Call.StaticCallee()); c2 != nil && c2 == ctxApplyFn(m) {
 								op = cal
 								t2 = ""
+							}
+						}
+					}
+				}
+			}
+		}
+	}
+	// apply written out in front of the operation: z.SetMode(c.mode), then SetPrec(c.prec) —
+	// always, or behind the test that z's precision differs — and the operation on z itself
+	if op == nil {
+		for _, b := range fn.Blocks {
+			if !live[b.Index] {
+				continue
+			}
+			for _, in := range b.Instrs {
+				call, ok := in.(*ssa.Call)
+				if !ok {
+					continue
+				}
+				cal := model.Unthunk(call.Call.StaticCallee())
+				if cal == nil || !m.IsDecMethod(cal) || !m.InDecimalPkg(cal) || len(call.Call.Args) == 0 || !m.RefOf(call.Call.Args[0]).OnlyParam(1) {
+					continue
+				}
+				switch cal.Name() {
+				case "SetMode", "SetPrec", "Prec", "Mode":
+					continue
+				}
+				modeOK, precOK := false, false
+				for _, b2 := range fn.Blocks {
+					for _, in2 := range b2.Instrs {
+						c2, ok := in2.(*ssa.Call)
+						if !ok || model.Unthunk(c2.Call.StaticCallee()) == nil || len(c2.Call.Args) != 2 || !m.RefOf(c2.Call.Args[0]).OnlyParam(1) {
+							continue
+						}
+						switch m.FuncName(model.Unthunk(c2.Call.StaticCallee())) {
+						case "(*Decimal).SetMode":
+							if derivesFromCtxField(m, c2.Call.Args[1], "mode") && m.InstrDominates(c2, call) {
+								modeOK = true
+							}
+						case "(*Decimal).SetPrec":
+							if !derivesFromCtxField(m, c2.Call.Args[1], "prec") {
+								continue
+							}
+							if m.InstrDominates(c2, call) {
+								precOK = true
+								continue
+							}
+							// behind `z.Prec() != c.prec`, the test dominating the operation
+							for _, gb := range fn.Blocks {
+								if len(gb.Instrs) == 0 {
+									continue
+								}
+								ifi, ok := gb.Instrs[len(gb.Instrs)-1].(*ssa.If)
+								if !ok {
+									continue
+								}
+								bo, ok := ifi.Cond.(*ssa.BinOp)
+								if !ok || (bo.Op != token.NEQ && bo.Op != token.EQL) {
+									continue
+								}
+								isPrecOfZ := func(v ssa.Value) bool {
+									pc, ok := stripConv(v).(*ssa.Call)
+									return ok && model.Unthunk(pc.Call.StaticCallee()) != nil && m.FuncName(model.Unthunk(pc.Call.StaticCallee())) == "(*Decimal).Prec" && m.RefOf(pc.Call.Args[0]).OnlyParam(1)
+								}
+								if !((isPrecOfZ(bo.X) && derivesFromCtxField(m, bo.Y, "prec")) || (isPrecOfZ(bo.Y) && derivesFromCtxField(m, bo.X, "prec"))) {
+									continue
+								}
+								diff := 0
+								if bo.Op == token.EQL {
+									diff = 1
+								}
+								if m.EdgeDominates(gb, diff, c2.Block()) && gb != call.Block() && m.Dominates(gb, call.Block()) {
+									precOK = true
+								}
+							}
+						}
+					}
+				}
+				if modeOK && precOK {
+					op = cal
+					t2 = ""
+				}
+			}
+		}
+	}
+	// the operation handed as a closure to a helper of the package that runs it under its own
+	// deferred handler:  return c.quiet(z, func() *Decimal { return c.apply(z).Mul(x, y) })
+	var wrapCalls []*ssa.Call
+	var wrapper *ssa.Function
+	if op == nil {
+		resolveFV := func(v ssa.Value, mc *ssa.MakeClosure) ssa.Value {
+			u, ok := v.(*ssa.UnOp)
+			if !ok || u.Op != token.MUL {
+				return v
+			}
+			fv, ok := u.X.(*ssa.FreeVar)
+			if !ok {
+				return v
+			}
+			cl := mc.Fn.(*ssa.Function)
+			for i, f := range cl.FreeVars {
+				if f != fv || i >= len(mc.Bindings) {
+					continue
+				}
+				al, ok := mc.Bindings[i].(*ssa.Alloc)
+				if !ok || al.Referrers() == nil {
+					return v
+				}
+				var stored ssa.Value
+				n := 0
+				for _, r := range *al.Referrers() {
+					if st, ok := r.(*ssa.Store); ok && st.Addr == ssa.Value(al) {
+						stored = st.Val
+						n++
+					}
+				}
+				if n == 1 {
+					return stored
+				}
+			}
+			return v
+		}
+		for _, b := range fn.Blocks {
+			if !live[b.Index] {
+				continue
+			}
+			for _, in := range b.Instrs {
+				call, ok := in.(*ssa.Call)
+				if !ok {
+					continue
+				}
+				h := model.Unthunk(call.Call.StaticCallee())
+				if h == nil || !m.InContextPkg(h) || len(h.Blocks) == 0 || h == ctxApplyFn(m) {
+					continue
+				}
+				for ai, a := range call.Call.Args {
+					mc, ok := a.(*ssa.MakeClosure)
+					if !ok || ai >= len(h.Params) {
+						continue
+					}
+					// the helper calls that parameter and hands its result back
+					callsParam := false
+					for _, hb := range h.Blocks {
+						for _, hin := range hb.Instrs {
+							if hc, ok := hin.(*ssa.Call); ok && hc.Call.Value == ssa.Value(h.Params[ai]) {
+								callsParam = true
+							}
+						}
+					}
+					// the receiver handed to the helper is z
+					zOK := false
+					for _, a2 := range call.Call.Args {
+						if m.IsDecPtr(a2.Type()) {
+							v := a2
+							if u, isU := v.(*ssa.UnOp); isU && u.Op == token.MUL {
+								if al, isAl := u.X.(*ssa.Alloc); isAl && al.Referrers() != nil {
+									for _, r := range *al.Referrers() {
+										if st, ok := r.(*ssa.Store); ok && st.Addr == ssa.Value(al) {
+											v = st.Val
+										}
+									}
+								}
+							}
+							if m.RefOf(v).OnlyParam(1) {
+								zOK = true
+							}
+						}
+					}
+					if !callsParam || !zOK {
+						continue
+					}
+					cl := mc.Fn.(*ssa.Function)
+					for _, cb := range cl.Blocks {
+						for _, cin := range cb.Instrs {
+							oc, ok := cin.(*ssa.Call)
+							if !ok {
+								continue
+							}
+							cal := model.Unthunk(oc.Call.StaticCallee())
+							if cal == nil || !m.IsDecMethod(cal) || !m.InDecimalPkg(cal) {
+								continue
+							}
+							if ac, ok := oc.Call.Args[0].(*ssa.Call); ok {
+								if c2 := model.Unthunk(ac.Call.StaticCallee()); c2 != nil && c2 == ctxApplyFn(m) {
+									if m.RefOf(resolveFV(ac.Call.Args[1], mc)).OnlyParam(1) {
+										op = cal
+										t2 = ""
+										wrapper = h
+										wrapCalls = append(wrapCalls, call)
+									}
+								}
 							}
 						}
 					}
@@ -638,11 +874,12 @@ func ctxOperator(m *model.Model, s *ob.Set, fn *ssa.Function, nan map[*ssa.Funct
 		var opCalls []*ssa.Call
 		for _, b := range fn.Blocks {
 			for _, in := range b.Instrs {
-				if call, ok := in.(*ssa.Call); ok && call.Call.StaticCallee() == op {
+				if call, ok := in.(*ssa.Call); ok && model.Unthunk(call.Call.StaticCallee()) == op {
 					opCalls = append(opCalls, call)
 				}
 			}
 		}
+		opCalls = append(opCalls, wrapCalls...)
 		var latchedBlock *ssa.BasicBlock
 		if latch != nil {
 			latchedBlock = latch.Block().Succs[latchEdge]
@@ -679,12 +916,16 @@ func ctxOperator(m *model.Model, s *ob.Set, fn *ssa.Function, nan map[*ssa.Funct
 
 	// ---- T3 / T4
 	var closure *ssa.Function
-	for _, b := range fn.Blocks {
+	hfn := fn
+	if wrapper != nil {
+		hfn = wrapper // the handler is the helper's
+	}
+	for _, b := range hfn.Blocks {
 		for _, in := range b.Instrs {
 			if d, ok := in.(*ssa.Defer); ok {
 				if mc, ok := d.Call.Value.(*ssa.MakeClosure); ok {
 					closure = mc.Fn.(*ssa.Function)
-				} else if cal := d.Call.StaticCallee(); cal != nil && m.InContextPkg(cal) && len(cal.Blocks) > 0 {
+				} else if cal := model.Unthunk(d.Call.StaticCallee()); cal != nil && m.InContextPkg(cal) && len(cal.Blocks) > 0 {
 					// a named handler (method or function) deferred directly
 					closure = cal
 				}
